@@ -212,18 +212,16 @@ Definition ae_ok (expected obs : list string) : bool := leq obs expected || leq 
 Definition ua_ok (expected obs : list string) : bool :=
   leq obs expected || leq obs (firstn 1 expected) || (is_empty (first_or_empty expected) && is_nil obs).
 
-(** the pipeline's cookies are elements of the one Cookie field *)
-Definition cookie_elements (v : string) : list string := map trim_left (split_on ";" v).
+(** the pipeline's cookies are in the one Cookie field *)
 Definition cookies_ok (pl : pipeline) (obs : list string) : bool :=
   match obs with
-  | [v] => forallb (fun c => mem_str (cookie_text c) (cookie_elements v)) (p_cookies pl)
+  | [v] => forallb (fun c => contains (cookie_text c) v) (p_cookies pl)
   | _ => false
   end.
 
 (** an element of a Forwarded field that names the peer (RFC 7239: for=addr, for="addr", for="[v6]") *)
-Definition for_param (peer p : string) : bool :=
-  String.eqb p ("for=" ++ peer) || String.eqb p ("for=""" ++ peer ++ """") || String.eqb p ("for=""[" ++ peer ++ "]""").
-Definition names_peer (peer e : string) : bool := existsb (fun p => for_param peer (trim p)) (split_on ";" e).
+Definition names_peer (peer e : string) : bool :=
+  contains ("for=" ++ peer) e || contains ("for=""" ++ peer ++ """") e || contains ("for=""[" ++ peer ++ "]""") e.
 
 (** [v] is [old] extended by one more element (old may be empty) which satisfies [ok] *)
 Definition extended_by (ok : string -> bool) (old v : string) : bool :=
@@ -237,7 +235,7 @@ Definition hdr_clause (q : request) (pl : pipeline) (tracing : bool) (k : string
   let with_cookies := String.eqb k "Cookie" && negb (is_nil (p_cookies pl)) in
   if negb (is_nil pvs) then
     (* "every header produced by the pipeline replaces any same-named header sent by the client" *)
-    if with_cookies then cookies_ok pl vs && mem_str (first_or_empty pvs) (match vs with [v] => cookie_elements v | _ => [] end)
+    if with_cookies then cookies_ok pl vs
     else if String.eqb k "Accept-Encoding" then ae_ok pvs vs
     else if String.eqb k "User-Agent" then ua_ok pvs vs
     else leq vs pvs
@@ -351,7 +349,7 @@ Definition guard_F3 (q : request) (r : rule) : bool :=
 
 (** C15-F4: the pipeline produced a forwarding header that the forwarded-header block then overwrites *)
 Definition guard_F4 (q : request) (pl : pipeline) : bool :=
-  existsb (fun k => match pipeline_value (p_headers pl) k, forwarding_value q k with
+  existsb (fun k => match pipeline_value (p_headers pl) k, forwarding_value true q k with
                     | Some _, Some _ => true
                     | _, _ => false
                     end)
@@ -361,3 +359,25 @@ Definition guard_F4 (q : request) (pl : pipeline) : bool :=
     escaping, or a broken escape) *)
 Definition guard_F5 (r : rule) : bool :=
   let a := cfg_add r in negb (valid_encoded a && wellformed a).
+
+(** C15-F6: parameters are to be removed, the query parses, and Values.Encode
+    spells what is left differently (order of the keys, escapes, `a` vs `a=`, empty settings) *)
+Definition guard_F6 (q : request) (r : rule) : bool :=
+  match view_url q with
+  | None => false
+  | Some u =>
+    let names := cfg_strip_query r in
+    let qs := u_query u in
+    negb (is_nil names) && negb (is_empty qs) && negb (snd (parse_query qs)) &&
+    negb (String.eqb (values_encode (del_all names (fst (parse_query qs)))) (kept_settings names qs))
+  end.
+
+(** C15-F7: the forwarding header this request's information travels in came in more than one field line *)
+Definition guard_F7 (q : request) : bool :=
+  let hin := in_headers q in
+  if forwarding_active true hin then (2 <=? length (h_values "X-Forwarded-For" hin))%nat
+  else (2 <=? length (h_values "Forwarded" hin))%nat.
+
+(** C15-F8: tracing is on and the pipeline produced a trace propagation header *)
+Definition guard_F8 (pl : pipeline) (r : rule) : bool :=
+  r_tracing r && existsb (fun k => negb (is_nil (line_values k (p_headers pl)))) propagation_names.
